@@ -280,11 +280,17 @@ func (root *Root) addExtends(extends ...*Extend) (err error) {
 			if cur == nil {
 				cur = root.dirs.get(x.Adds.Name())
 			}
-		} else if schema, _ := x.Adds.(*Schema); schema != nil {
+		} else if schema, _ := x.Adds.(*Schema); schema != nil && root.schema != nil {
+			// A nil root.schema must not be assigned, cur would then be an
+			// interface that is not nil holding a nil *Schema.
 			cur = root.schema
 		}
 		if cur == nil {
-			return fmt.Errorf("%s can not be extended because it was %w", x.Adds.Name(), ErrNotFound)
+			name := x.Adds.Name()
+			if len(name) == 0 {
+				name = "schema"
+			}
+			return fmt.Errorf("%s can not be extended because it was %w", name, ErrNotFound)
 		}
 		if reflect.TypeOf(x.Adds) != reflect.TypeOf(cur) {
 			return fmt.Errorf("%w: %s, a %T can not extend a %T", ErrTypeMismatch, x.Adds.Name(), x.Adds, cur)
